@@ -70,22 +70,28 @@ def describesItem (ds : DescSet) (kind : PKind) (t : Target) (s : RField) : Bool
   | .map _ => false
   | .array _ => false
 
-/-- schema `s` describes field `f`: cardinality and element kind agree; the element of a list
-or map is not an `Any` (`lib/j5reflect` has no array / map of Any) -/
+/-- schema `s` describes field `f`: cardinality and element kind agree -/
 def describes (ds : DescSet) (f : FieldD) (s : RField) : Bool :=
   match f.card with
   | .list =>
     match s with
-    | .array i => i != .any && describesItem ds f.kind f.target i
+    | .array i => describesItem ds f.kind f.target i
     | _ => false
   | .map =>
     match s with
     | .map i =>
       match f.mapVal with
-      | some (vk, vt, _) => i != .any && describesItem ds vk vt i
+      | some (vk, vt, _) => describesItem ds vk vt i
       | none => false
     | _ => false
   | .single => describesItem ds f.kind f.target s
+
+/-- the recorded exception on the codec side (open finding `any-in-collection`): the reader
+accepts a list / map of `Any`, `lib/j5reflect` has no array / map of Any -/
+def anyInCollection : RField → Bool
+  | .array .any => true
+  | .map .any => true
+  | _ => false
 
 theorem stringKind_tag (like : Bool) (k : Option J5Sum) (t : STag) (h : stringKind like k = .ok t) :
     t = .string ∨ t = .key := by
@@ -211,24 +217,20 @@ every message, whatever annotations it carries -/
 theorem buildProperty_describes (ds : DescSet) (reg : Reg) (f : FieldD) (prop : RProp) (b : Built)
     (h : buildProperty ds reg f = .ok (prop, b)) :
     prop.path = [f.number] ∧ prop.json = f.jsonName ∧ describes ds f prop.schema = true := by
-  obtain ⟨kind, t, e, key, mk, hplan, hb, hprop, hany⟩ := buildProperty_ok h
+  obtain ⟨kind, t, e, key, mk, hplan, hb, hprop⟩ := buildProperty_ok h
   subst hprop
   unfold propertyPlan at hplan
   unfold describes
   cases hc : f.card with
   | list =>
-    have hne : b.schema ≠ .any := hany (by simp [hc])
     simp only [hc] at hplan ⊢
     cases hplan
-    refine ⟨rfl, rfl, ?_⟩
-    simp only [Bool.and_eq_true, bne_iff_ne, ne_eq]
-    exact ⟨hne, buildSchema_describes ds reg _ _ _ _ b hb⟩
+    exact ⟨rfl, rfl, buildSchema_describes ds reg _ _ _ _ b hb⟩
   | single =>
     simp only [hc] at hplan ⊢
     cases hplan
     exact ⟨rfl, rfl, buildSchema_describes ds reg _ _ _ _ b hb⟩
   | map =>
-    have hne : b.schema ≠ .any := hany (by simp [hc])
     simp only [hc] at hplan ⊢
     split at hplan
     · cases hplan
@@ -238,9 +240,7 @@ theorem buildProperty_describes (ds : DescSet) (reg : Reg) (f : FieldD) (prop : 
         obtain ⟨vk, vt, vkey⟩ := x
         simp only [hmv] at hplan ⊢
         cases hplan
-        refine ⟨rfl, rfl, ?_⟩
-        simp only [Bool.and_eq_true, bne_iff_ne, ne_eq]
-        exact ⟨hne, buildSchema_describes ds reg _ _ _ _ b hb⟩
+        exact ⟨rfl, rfl, buildSchema_describes ds reg _ _ _ _ b hb⟩
 
 /-! ## the same at the level of the machine and of the resulting schema set -/
 
@@ -389,7 +389,7 @@ theorem buildSchema_opDesc (ds : DescSet) (reg : Reg) (kind : PKind) (t : Target
 
 theorem buildProperty_opDesc (ds : DescSet) (reg : Reg) (f : FieldD) (prop : RProp) (b : Built)
     (h : buildProperty ds reg f = .ok (prop, b)) : ∀ op ∈ b.ops, OpDesc ds op := by
-  obtain ⟨kind, t, e, key, mk, _, hb, _, _⟩ := buildProperty_ok h
+  obtain ⟨kind, t, e, key, mk, _, hb, _⟩ := buildProperty_ok h
   exact buildSchema_opDesc ds reg kind t e key b hb
 
 theorem exposeOneofs_desc (ds : DescSet) (m : Msg) (hm : m ∈ ds.msgs) (os : List OneofD)
